@@ -2,7 +2,7 @@
 import json, os, shutil, sys, tempfile, time, zlib, collections
 import common
 from common import (Rng, build_coq, build_driver, build_go, run_impl, run_model, parse_results, parse_ops,
-                    compare, check_property_file, grep_gate, assumptions_summary, load_known, write_evidence,
+                    compare, check_property_file, coqchk_property, grep_gate, assumptions_summary, load_known, write_evidence,
                     write_replay, case_hash, BuildError, VERIF, BUILD)
 
 
@@ -137,6 +137,14 @@ def run_property(prop, tier, seed, replay_path=None):
         broken.append("Properties/%s.v does not check: %s" % (pid, pa_text[-1500:]))
     if gate:
         broken.append("forbidden constructs: " + "; ".join(gate[:5]))
+    chk_note = None
+    if coq_ok and proof_ok and tier == "thorough" and not replay_path:
+        chk_ok, chk_ax, chk_tail = coqchk_property(pid)
+        chk_note = "coqchk -o: %s; axioms: %s" % ("ok" if chk_ok else "FAILED", chk_ax)
+        if not chk_ok:
+            broken.append("coqchk rejects Properties/%s.vo: %s" % (pid, chk_tail))
+        elif chk_ax not in ("<none>",):
+            broken.append("coqchk reports axioms: " + chk_ax)
     if axioms:
         std_ok = all(prop_axioms_allowed(a) for a in axioms)
         if not std_ok:
@@ -318,7 +326,7 @@ def run_property(prop, tier, seed, replay_path=None):
                 "Print Assumptions: %d theorem(s) closed under the global context; axioms: %s" % (closed, "; ".join(a.strip().replace("\n", " ") for a in axioms) or "none"),
                 "extraction (ExtrOcamlBasic only, no Extract Constant of our own) + OCaml 4.13.1 driver /verif/driver/main.ml",
                 "correspondence check: Go harness /verif/harness/whitebox (overlay-injected, tag verif) + this orchestrator",
-            ] + list(prop.trusted),
+            ] + ([chk_note] if chk_note else []) + list(prop.trusted),
             "theorems": theorems, "examples": examples,
             "evaluations": len(cases),
             "distinct_nontrivial": nontrivial,
